@@ -321,10 +321,13 @@ def _bcast(a, b):
     return out
 
 
-def build_sym(desc):
-    """-> (nodes, info); raises on an unexpected rejection"""
+def build_sym(desc, names=None):
+    """-> (nodes, info); raises on an unexpected rejection.  *names*
+    optionally renames size parameters and placeholders (C15)."""
     import pytato as pt
-    sp = {"n": pt.make_size_param("n"), "m": pt.make_size_param("m")}
+    names = names or {}
+    sp = {"n": pt.make_size_param(names.get("n", "n")),
+          "m": pt.make_size_param(names.get("m", "m"))}
     env = []
     rejected_ok = 0
     for nd in desc["nodes"]:
@@ -332,8 +335,8 @@ def build_sym(desc):
         a = [env[i] for i in nd.get("args", [])]
         if op == "in":
             env.append(pt.make_placeholder(
-                nd["name"], tuple(axis_pt(x, sp) for x in nd["shape"]),
-                np.float64))
+                names.get(nd["name"], nd["name"]),
+                tuple(axis_pt(x, sp) for x in nd["shape"]), np.float64))
         elif op in ("add", "sub", "mul"):
             import operator
             env.append(getattr(operator, op)(a[0], a[1]))
@@ -369,7 +372,8 @@ def build_sym(desc):
             env.append(a[0])
         elif op == "altadd":
             other = pt.make_placeholder(
-                nd["name"], tuple(axis_pt(x, sp, alt=True)
+                names.get(nd["name"], nd["name"]),
+                tuple(axis_pt(x, sp, alt=True)
                                   for x in nd["shape"]), np.float64)
             env.append(a[0] + other)
         elif op == "badadd":
